@@ -279,7 +279,9 @@ func newSim(in *Input, target string, maxSteps int) *Sim {
 			continue
 		}
 		if f.Ledger >= 0 && f.Ledger < nl && f.Nth > 0 {
-			s.sfaults[fmt.Sprintf("%s/%s/%d", ledgerName(f.Ledger), f.Method, f.Nth)] = f.Mode
+			for k := 0; k < max(1, f.Len); k++ {
+				s.sfaults[fmt.Sprintf("%s/%s/%d", ledgerName(f.Ledger), f.Method, f.Nth+k)] = f.Mode
+			}
 		}
 	}
 	return s
@@ -456,12 +458,21 @@ func (s *Sim) root() {
 			}
 			break
 		}
-		s.idleAdvance = 0
 		// only waiters of a mutex whose holder is blocked for good (e.g. in Append after the runner
 		// has been closed) are left: nothing can make progress any more
 		if onlyLockWaiters(ps) {
 			s.spinning++
 			if s.spinning > 2*len(ps)+2 {
+				// as for an empty set of runnable tasks: whoever holds the mutex may be waiting for a timer
+				if s.idleAdvance < len(idleSteps) {
+					d := idleSteps[s.idleAdvance]
+					s.idleAdvance++
+					s.spinning = 0
+					s.sched.Logf("step %d: idle (only mutex waiters), clock +%s", s.sched.step, d)
+					s.count("clock.advanced-while-idle")
+					simSleep(d)
+					continue
+				}
 				s.stuck()
 				if s.probing {
 					s.probing = false
@@ -472,6 +483,7 @@ func (s *Sim) root() {
 			}
 		} else {
 			s.spinning = 0
+			s.idleAdvance = 0
 		}
 		p := s.sched.pick(ps)
 		s.sched.Logf("step %d: run %s @%s", s.sched.step, p.Name, p.point)
